@@ -95,10 +95,8 @@ type LocalCachedMap[G any, L any] struct {
 //
 //nolint:revive
 func (lm *LocalCachedMap[G, L]) GetOrCreate(tempKeys []string, onCreating func(permKeys []string)) L {
-	tempMergedKey := lm.keyBuffer
-	for _, tkey := range tempKeys {
-		tempMergedKey = append(tempMergedKey, tkey...)
-	}
+	// length-prefixed, so that different key sets never share an entry, e.g. ("ab","c") and ("a","bc")
+	tempMergedKey := util.AppendMergedKey(lm.keyBuffer, tempKeys)
 	lm.keyBuffer = tempMergedKey[:0]
 
 	// try to get existing cache by temp key, no new key string is created here
